@@ -3,6 +3,7 @@ import TrackVerif.Common.Outcome
 import TrackVerif.LT.Fmt
 import TrackVerif.LT.Time
 import TrackVerif.LT.Xml
+import TrackVerif.LT.Tree
 /-
   Schema-driven model of `encoding/xml` Marshal / Unmarshal for the LapTimer types, parameterised
   by the schema the translator extracts from pkg/laptimer/types.go (struct fields with their xml
@@ -200,28 +201,29 @@ def simpleText (k : Kind) (v : V) : Outcome (List Char) :=
 /-! ### Marshal -/
 
 mutual
-/-- `printer.marshalValue` for a field (or slice element) of static type `ty` named `name` -/
-def marshalValue (s : Schema) : Nat → String → Bool → LtType → V → Outcome (List XTok)
+/-- `printer.marshalValue` for a field (or slice element) of static type `ty` named `name`: the
+    elements it prints, as trees (a leaf carries character data, a node child elements) -/
+def marshalTrees (s : Schema) : Nat → String → Bool → LtType → V → Outcome (List Xml.Tree)
   | 0, _, _, _, _ => .unmodelled
   | fuel + 1, name, om, ty, v =>
     let k := kindOf s 8 ty
     if om && isEmptyValue k v then .ok [] else
     match k, v with
     | .ptr _, .nil => .ok []
-    | .ptr t', .ptr v' => marshalValue s fuel name false t' v'    -- omitempty was decided on the pointer
+    | .ptr t', .ptr v' => marshalTrees s fuel name false t' v'    -- omitempty was decided on the pointer
     | _, _ =>
       match headName ty with
       | some n =>
         if s.marshalers.contains n then
-          (customText s n v).map fun t => [XTok.start name [], XTok.text t, XTok.stop name]
-        else marshalPlain s fuel name om k v
-      | none => marshalPlain s fuel name om k v
+          (customText s n v).map fun t => [Xml.Tree.leaf name [] t]
+        else marshalPlainT s fuel name om k v
+      | none => marshalPlainT s fuel name om k v
 
-def marshalPlain (s : Schema) : Nat → String → Bool → Kind → V → Outcome (List XTok)
+def marshalPlainT (s : Schema) : Nat → String → Bool → Kind → V → Outcome (List Xml.Tree)
   | 0, _, _, _, _ => .unmodelled
   | fuel + 1, name, om, k, v =>
     match k, v with
-    | .slice t', .list vs => (vs.mapM fun e => marshalValue s fuel name om t' e).map List.flatten
+    | .slice t', .list vs => (vs.mapM fun e => marshalTrees s fuel name om t' e).map List.flatten
     | .structT n, .struct fs =>
       match s.fieldsOf n with
       | none => .unmodelled
@@ -235,12 +237,17 @@ def marshalPlain (s : Schema) : Nat → String → Bool → Kind → V → Outco
             if f.omitempty && isEmptyValue fk fv then Outcome.ok ([] : List (String × List Char))
             else (simpleText fk fv).map fun t => [(f.xmlName, t)]
           let kids ← (pairs.filter (fun p => !p.1.attr)).mapM fun (f, fv) =>
-            marshalValue s fuel f.xmlName f.omitempty f.typ fv
-          .ok (XTok.start name attrs.flatten :: kids.flatten ++ [XTok.stop name])
+            marshalTrees s fuel f.xmlName f.omitempty f.typ fv
+          .ok [Xml.Tree.node name attrs.flatten kids.flatten]
     | .unknown, _ => .unmodelled
     | .unit, _ => .unmodelled
-    | _, _ => (simpleText k v).map fun t => [XTok.start name [], XTok.text t, XTok.stop name]
+    | _, _ => (simpleText k v).map fun t => [Xml.Tree.leaf name [] t]
 end
+
+/-- the token stream the printer is fed -/
+def marshalValue (s : Schema) (fuel : Nat) (name : String) (om : Bool) (ty : LtType) (v : V) :
+    Outcome (List XTok) :=
+  (marshalTrees s fuel name om ty v).map Xml.toksOfL
 
 /-- the root element's name: the tag of the XMLName field -/
 def rootName (s : Schema) (ty : String) : Option String :=
